@@ -180,8 +180,7 @@ def focus_c18(proj, rng, steps):
         elif r < 0.82:
             edit_spec(proj, rng)
         elif r < 0.92:
-            proj.config["use_spec_hashes"] = not proj.hashing
-            proj.write()
+            proj.set_flag("use_spec_hashes", not proj.hashing, rng)
         elif len(proj.targets) > 1:
             # remove or rename a target: its record stays in the hash file and must not disturb the others
             t = rng.choice(proj.targets)
@@ -275,8 +274,7 @@ def focus_c01(proj, rng, steps):
             j["state"] = rng.choice(["completed", "completed", "failed"])
     proj.cluster.write(st)
     if rng.random() < 0.7 and not proj.hashing:
-        proj.config["use_spec_hashes"] = True
-        proj.write()
+        proj.set_flag("use_spec_hashes", True, rng)
     steps.append(H.step_status(proj))
     steps.append(H.step_run(proj))
     drain(proj, rng)
